@@ -596,6 +596,7 @@ class ExcelModel:
             ref = '{c1}{r1}:{c2}{r2}'.format(**rng)
             for c, v in zip(np.ravel(sheet[ref]), np.ravel(r.value)):
                 try:
+                    text = isinstance(v, str) and not isinstance(v, XlError)
                     if v is sh.EMPTY or (isinstance(v, str) and v == ''):
                         v = None
                     elif isinstance(v, np.generic):
@@ -603,7 +604,8 @@ class ExcelModel:
                     elif isinstance(v, XlError):
                         v = str(v)
                     c.value = v
-                    if c.data_type == 'f':
+                    # A text that reads like a formula or an error is a text.
+                    if c.data_type == 'f' or (text and c.data_type == 'e'):
                         c.data_type = 's'
                 except AttributeError:
                     pass
